@@ -93,7 +93,16 @@ def _fake_loadtxt(f, dtype="float64", **kw):
     if f.pos != 5:
         raise E.HarnessError("loadtxt called after %d header lines" % f.pos)
     f.consumed = True
-    return f.field.copy().view(npx.MinMaxArray)
+    out = f.field.copy()
+    # numpy's row-selection keywords, should the caller use them
+    if kw.get("skiprows"):
+        out = out[int(kw["skiprows"]) :]
+    if kw.get("max_rows") is not None:
+        out = out[: int(kw["max_rows"])]
+    unknown = set(kw) - {"skiprows", "max_rows"}
+    if unknown:
+        raise E.HarnessError("loadtxt stub: keyword(s) %s not modelled" % sorted(unknown))
+    return out.view(npx.MinMaxArray)
 
 
 def _write_real(path, gid, hshape, region, drange, field, fmt="plain"):
